@@ -542,9 +542,11 @@ class Optimizer(Logger, Citable):
             return np.nan
 
         res = (mydata.ravel() - final_model.ravel()) / datastd.ravel()
+        # nansum of residuals that are all NaN is zero, which must not be
+        # mistaken for a perfect fit; a genuinely perfect fit is chi^2 = 0
+        if np.all(np.isnan(res)):
+            return np.nan
         res = np.nansum(res*res)
-        if res == 0:
-            res = np.nan
 
         return res
 
